@@ -276,6 +276,10 @@ def run(repo: Repo, rep: Report, tier: str) -> None:
             it.run(lp.body)
         except _Continue:
             pass
+        except TypeError as exc:
+            # the loop body applies an operation to this value that its type does not support (e.g. `'-' in 0`):
+            # the real handler raises the same TypeError for this key
+            it.called.append(f"<raises TypeError: {exc}>")
         got = it.called[0] if it.called else None
         want = expected(vr, val)
         n += 1
